@@ -47,7 +47,7 @@ def _call(g, mode: int, a, b, c):
 
 def wrap(a1: int, b1: int, c1: int, a2: int, b2: int, c2: int, a3: int, b3: int) -> bool:
     """
-    A wrapped pure function of all its arguments returns, on every call of a 3-call history, what the bare
+    A wrapped pure function of all its arguments returns, on every call of a 3-call history followed by the first call again, what the bare
     function returns -- passing styles VF_M1..3 (positional / keyword mixes), capacity VF_MAXSIZE (eviction forced).
     pre: 0 <= a1 < 2 and 0 <= b1 < 3 and 0 <= c1 < 2
     pre: 0 <= a2 < 2 and 0 <= b2 < 3 and 0 <= c2 < 2
@@ -60,7 +60,7 @@ def wrap(a1: int, b1: int, c1: int, a2: int, b2: int, c2: int, a3: int, b3: int)
     caching._max_size = MAXSIZE
     try:
         g = getattr(caching, WRAPPER)(_pure)
-        for (m, a, b, c) in ((m1, a1, b1, c1), (m2, a2, b2, c2), (m3, a3, b3, c3)):
+        for (m, a, b, c) in ((m1, a1, b1, c1), (m2, a2, b2, c2), (m3, a3, b3, c3), (m1, a1, b1, c1)):      # the 4th call repeats the 1st (after an eviction)
             if _call(g, m, a, b, c) != _call(_pure, m, a, b, c):
                 return fail("cached-result-differs-from-bare-function")
         return True
